@@ -34,10 +34,10 @@ MECHANISMS = [
     ('TotalDepth.RP66V1.core.LogicalFile', 'LogicalFile.add_eflr'),
 ]
 REQUIRED_MONITORS = ['logical_files_vs_model', 'table_vs_model', 'cell_vs_model', 'encrypted_skipped', 'record_position', 'sweep_table']
-MIN_NONTRIVIAL = {'quick': 1500, 'thorough': 60000}
+MIN_NONTRIVIAL = {'quick': 4000, 'thorough': 60000}
 TIMEOUT_S = {'quick': 300, 'thorough': 3000}
 NSHARDS = 16
-FILES = {'quick': 100, 'thorough': 6000}          # random files per shard
+FILES = {'quick': 400, 'thorough': 6000}          # random files per shard
 SWEEP_GROUP = 10                                 # sweep tables per file
 MAX_UNKNOWN_RECORDED = 25
 
